@@ -299,6 +299,17 @@ def install(which=None):
         if name in _installed:
             continue
         _installed.add(name)
+        try:
+            _install_one(name, multistage, twolevel_binomial, mixed, hseq,
+                         pdr)
+        except AttributeError as e:
+            # the function is gone (refactored away): the contract cannot be
+            # attached; its evaluation counter stays at zero
+            EVALS["contract.not_installable." + name] += 1
+
+
+def _install_one(name, multistage, twolevel_binomial, mixed, hseq, pdr):
+    if True:
         if name == "n_advance":
             wrapped = icontract.ensure(n_advance_post,
                                        error=ContractBroken)(
